@@ -2,7 +2,7 @@
    For each reformulation: an lp_equiv (maps between feasible sets + sign-aware affine map on
    values); from an lp_equiv: optimum <-> optimum with related values, infeasible <-> infeasible,
    unbounded <-> unbounded; lp_equiv is closed under composition. *)
-From QSX Require Import LP.TransformSound LP.TransformBounds.
+From QSX Require Import LP.TransformSound LP.TransformBounds LP.TransformSlack.
 Local Open Scope Q_scope.
 
 Theorem C15_equiv_optimum : forall M U U' phi psi neg b, lp_equiv M U U' phi psi neg b ->
@@ -78,3 +78,9 @@ Theorem C15_bound_as_row : forall M upper j U U', bound_to_row M upper j U = Som
   lp_equiv M U U' (fun x => x) (fun x => x) false 0.
 Proof. exact bound_to_row_equiv. Qed.
 Print Assumptions C15_bound_as_row.
+
+(* an inequality row written as an equation with an explicit slack column (new last column, objective 0) *)
+Theorem C15_slack_column : forall M i U U', 0 < M -> add_slack M i U = Some U' ->
+  lp_equiv M U U' (slack_phi U i) (fun x => x) false 0.
+Proof. exact add_slack_equiv. Qed.
+Print Assumptions C15_slack_column.
